@@ -746,6 +746,154 @@ def sim_case(ctx, ch, arg, reps, ts, via, dyadic, cases, tagbase, fixed_u=None, 
     return toks, out
 
 
+def sim2_case(ctx, ch, cases, tag):
+    """simulate() on a chain whose state_values are a 2-D array (one label ROW per state): init is a row, an
+    array of rows or None; malformed: scalar, row of another length, unknown row, 3-D array"""
+    rng = ctx.rng
+    n = ch.n
+    m = rng.choice([1, 2, 2, 3])
+    sv2 = [[rng.randrange(-5, 9) for _ in range(m)] for _ in range(n)]
+    if n >= 2 and rng.random() < 0.25:
+        sv2[rng.randrange(1, n)] = list(sv2[0])              # duplicated label row: the first position wins
+    distinct = len({tuple(r) for r in sv2}) == n
+    sv_obj = rng.choice([lambda: np.array(sv2), lambda: [list(r) for r in sv2], lambda: np.array(sv2, dtype=np.int32),
+                         lambda: np.asfortranarray(np.array(sv2))])()
+    ch.mc.state_values = sv_obj
+
+    def first(row):
+        return next((i for i, r in enumerate(sv2) if list(r) == list(row)), None)
+    kind = rng.choice(["none", "row", "row", "row", "rows", "rows", "rows-empty", "row-unknown", "row-wrong-length",
+                       "scalar", "3d", "rows-with-unknown"])
+    ctx.count("sv2:init:" + kind)
+    reps = rng.choice([None, None, 1, 2])
+    ts = rng.choice([1, 2, 3, 5])
+    exp = None                       # list of start indices, or "ERR"
+    if kind == "none":
+        init, wire = None, "none"
+        k_draw = 1 if reps is None else reps
+        drawn = [rng.randrange(n) for _ in range(k_draw)]
+        exp, dim = drawn, (1 if reps is None else 2)
+    else:
+        drawn = []
+        if kind == "row":
+            row = list(rng.choice(sv2))
+            init = rng.choice([list, tuple, np.array])(row)
+            wire, exp, dim = "r:" + ints(row), [first(row)] * (1 if reps is None else reps), (1 if reps is None else 2)
+        elif kind == "row-unknown":
+            row = [99] * m
+            init, wire, exp = row, "r:" + ints(row), "ERR"
+        elif kind == "row-wrong-length":
+            base = list(rng.choice(sv2))
+            row = rng.choice([base + [0], base + [base[-1]], base[:-1], base[:1] if m >= 2 else [], []])
+            if len(row) == m:
+                row = base + [0]
+            ctx.count("sv2:wrong-length:" + ("longer" if len(row) > m else "prefix" if row else "empty"))
+            init, wire, exp = (np.array(row, dtype=int) if rng.random() < 0.5 else row), "r:" + ints(row), "ERR"
+        elif kind == "scalar":
+            init, wire, exp = int(sv2[0][0]), "bad", "ERR"
+        elif kind == "3d":
+            init, wire, exp = np.array([[sv2[0]]]), "bad", "ERR"
+        elif kind == "rows-empty":
+            init, wire = np.empty((0, m), dtype=int), "m:-"
+            exp, dim = [], 2
+        else:
+            rows_ = [list(rng.choice(sv2)) for _ in range(rng.randint(1, 3))]
+            if kind == "rows-with-unknown":
+                rows_[rng.randrange(len(rows_))] = [77] * m
+            init = rng.choice([lambda: np.array(rows_), lambda: [list(r) for r in rows_], lambda: tuple(tuple(r) for r in rows_)])()
+            wire = "m:" + intm(rows_)
+            if kind == "rows-with-unknown":
+                exp = "ERR"
+            else:
+                exp, dim = [first(r) for r in rows_] * (1 if reps is None else reps), 2
+    U = []
+    if exp != "ERR":
+        for s0 in exp:
+            row_u, s = [], s0
+            for t in range(ts - 1):
+                cols, p, cdf = ch.rows[s]
+                u = plant_uniform(rng, p, cdf, ctx)
+                s = cols[ref_step(p, cdf, u)[0]]
+                row_u.append(u)
+            U.append(row_u)
+    Uarr = np.array(U, dtype=float).reshape(len(U), max(ts - 1, 0))
+    guard = Unchanged(ch.object_arrays() + [("the init argument", init)])
+
+    def call(interpreted):
+        rs = Planted(uniforms=[Uarr], integers=[np.array(drawn, dtype=np.int64)] if init is None else [])
+        try:
+            if interpreted:
+                with interpreted_kernels():
+                    X = ch.mc.simulate(ts, init=init, num_reps=reps, random_state=rs)
+            else:
+                X = ch.mc.simulate(ts, init=init, num_reps=reps, random_state=rs)
+        except ValueError:
+            return "ERR:ValueError", None, rs
+        except IndexError:
+            return "ERR:IndexError", None, rs
+        X = np.asarray(X)
+        if X.ndim == 2:
+            return "dim=2|k=1|X=" + intm(X.tolist()), X, rs
+        if X.ndim == 3:
+            return "dim=3|k=%d|X=%s" % (X.shape[0], "/".join(intm(pth) for pth in X.tolist()) if X.shape[0] else "-"), X, rs
+        return "unexpected ndim %d" % X.ndim, X, rs
+    out, X, rs = call(True)
+    if out != "ERR:IndexError":
+        out, X, rs = call(False)
+    replay = {"op": "simulate with 2-D state_values", "sparse": ch.sparse, "state_values": sv2, "init": wire,
+              "init_repr": repr(init), "num_reps": reps, "ts_length": ts, "drawn": drawn,
+              "P_rows": [[c, [x.hex() for x in p]] for c, p, _ in ch.rows], "uniforms": [[x.hex() for x in r] for r in U],
+              "code": out}
+    key = "simulate_2d_state_values"
+    if exp == "ERR":
+        if out != "ERR:ValueError":
+            ctx.spec_fail(key + "_init", "init %s is not a label row of the chain, yet: %s" % (wire, out), replay)
+    elif X is None:
+        ctx.spec_fail(key + "_raises", "valid request raised %s" % out, replay)
+    else:
+        want_shape = (ts, m) if dim == 1 else (len(exp), ts, m)
+        bad = None
+        if X.shape != want_shape or rs.shape_mismatch or rs.uq or rs.iq:
+            bad = "shape %s, documented %s (random numbers: %s)" % (X.shape, want_shape, rs.shape_mismatch or "%d left" % len(rs.uq + rs.iq))
+        else:
+            X3 = X.reshape(len(exp), ts, m)
+            for i, s0 in enumerate(exp):
+                idx = [first(r) for r in X3[i].tolist()]
+                if any(j is None for j in idx):
+                    bad = "a returned row is not a label row"
+                    break
+                if X3[i, 0].tolist() != list(sv2[s0]):
+                    bad = "path %d starts at label %s, requested %s" % (i, X3[i, 0].tolist(), sv2[s0])
+                    break
+                if not distinct:
+                    ctx.count("sv2:duplicate-label-rows")
+                    continue
+                for t in range(ts - 1):
+                    s, j = idx[t], idx[t + 1]
+                    cols, p, cdf = ch.rows[s]
+                    why = "no stored entry for column %d in row %d" % (j, s)
+                    for pos, c in enumerate(cols):
+                        if c == j:
+                            why = inv_cdf_ok(p, cdf, U[i][t], pos)
+                            if why is None:
+                                break
+                    if why:
+                        bad = "path %d step %d from state %d: %s" % (i, t, s, why)
+                        break
+                if bad:
+                    break
+        if bad:
+            ctx.spec_fail(key, bad, replay)
+        KEEP.aliases(ctx, "simulate (2-D state_values)", X, ch.object_arrays() + [("the init argument", init)], replay)
+        KEEP.keep("simulate (2-D state_values)", X)
+    guard.check(ctx, "simulate (2-D state_values)", replay)
+    w = ch.wire("float").replace("dense ", "dense2 ", 1).replace("sparse ", "sparse2 ", 1)
+    cases.append(Case("C10 %s sv2=%s init2=%s reps=%s drawn=%s ts=%d u=%s" % (
+        w, intm(sv2), wire, "none" if reps is None else str(reps), ints(drawn), ts, fxm(U)), out,
+        nontrivial=(exp != "ERR" and ts >= 2 and len(U) >= 1), tag=tag))
+    ch.mc.state_values = None
+
+
 class interpreted_kernels:
     """run the path kernels of markov/core.py as plain Python (their .py_func)"""
 
@@ -979,6 +1127,8 @@ def run(ctx):
                 ts = rng.choice([0, 1, 2, 3, 5, 8, 13]) if rng.random() < 0.9 else rng.randint(20, ctx.n(60, 400))
                 via = rng.choice(["indices", "indices", "simulate"])
                 sim_case(ctx, ch, arg, reps, ts, via, dyadic, cases, "sparse" if sp else "dense")
+            if rng.random() < 0.4:
+                sim2_case(ctx, ch, cases, ("sparse" if sp else "dense") + "-sv2")
 
     # ---- object histories: one MarkovChain, state_values re-assigned between the calls ------------
     # every call is judged by the oracle against the CURRENT state_values and compared with the model twice:
@@ -1750,7 +1900,9 @@ def run(ctx):
 
     # ---- malformed requests must be refused by the driver ---------------------------------------------
     for bad in ["C10 dense sc=float P=x3ff0000000000000 init=s:0 reps=none drawn=- via=indices u=-",   # no ts
-                "C10 ss sc=float a=zz v=x0000000000000000", "C10 nosuchop sc=float", "C10 ss a=- v=1"]:
+                "C10 ss sc=float a=zz v=x0000000000000000", "C10 nosuchop sc=float", "C10 ss a=- v=1",
+                "C10 dense2 sc=float P=x3ff0000000000000 sv2=1 init2=q:1 reps=none drawn=- ts=1 u=-",      # unknown init form
+                "C10 dense2 sc=float P=x3ff0000000000000 init2=r:1 reps=none drawn=- ts=1 u=-"]:            # no sv2
         cases.append(Case(bad, "bad-op", nontrivial=False, cmp=lambda mo, impl: None if mo == "bad-op" else "accepted",
                           tag="malformed"))
 
